@@ -31,6 +31,31 @@ def history(rng, tier):
             if mode == 'ro':
                 w.emit('fdrop'); w.emit('fopen rw auto')
             w.rebind()
+    # churn on the multi-valued links through ONE retained handle: add, remove all, add again; then what that handle shows
+    # (before the close) must be what a re-fetched handle shows after the reopen
+    watched = []
+    for b in w.alive('B')[:2]:
+        srcs = w.alive('O', block=b.slot); arrs = w.alive('A', block=b.slot)
+        for h in w.alive(['A', 'T', 'G'], block=b.slot)[:2]:
+            if len(srcs) >= 1:
+                picks = rng.sample(srcs, min(len(srcs), 2))
+                for s_ in picks: w.emit('link src %s handle %s' % (h.slot, s_.slot))
+                for s_ in srcs: w.emit('unlink src %s handle %s' % (h.slot, s_.slot))
+                for s_ in picks[:1]: w.emit('link src %s handle %s' % (h.slot, s_.slot))
+                watched.append('listlink src %s' % h.slot)
+        for t in w.alive(['T', 'M'], block=b.slot)[:2]:
+            if arrs:
+                a = rng.choice(arrs)
+                w.emit('link ref %s handle %s' % (t.slot, a.slot))
+                for x in arrs: w.emit('unlink ref %s handle %s' % (t.slot, x.slot))
+                w.emit('link ref %s handle %s' % (t.slot, a.slot))
+                watched.append('listlink ref %s' % t.slot)
+        for g in w.alive('G', block=b.slot)[:1]:
+            for x in w.alive('D', block=b.slot)[:2]:
+                w.emit('link mD %s handle %s' % (g.slot, x.slot))
+            watched.append('listlink mD %s' % g.slot)
+            watched.append('listlink mA %s' % g.slot)
+    for q in watched: w.emit(q)
     # end of history, deliberately WITHOUT looking at the tree first: read-only session, another process with its own
     # time zone, read-write session — all three must show the same tree
     w.emit('fdrop'); w.emit('fopen ro auto')
@@ -39,6 +64,8 @@ def history(rng, tier):
     w.emit('dumpx %s' % rng.choice(['JST-9', 'EST5', 'UTC0', 'CET-1CEST']))
     w.emit('fopen rw auto')
     w.emit('dump')
+    w.rebind()
+    for q in watched: w.emit(q)
     return w.lines
 
 def cases(tier, seed, rng):
